@@ -264,9 +264,11 @@ func (e *expect) judge(dir string, rc *recovered, mode string, st *ostats) *verd
 	if !attrOK {
 		return &verdict{"attributes-" + mode, fmt.Sprintf("after reopen checkpoint=%q rebuilding=%v matches none of the acceptable states", rc.info.Checkpoint, rc.info.Rebuilding)}
 	}
-	// retained snapshots: promised in every acceptable state
+	// retained snapshots: user-created, not marked removed, and a MEMBER OF THE CHAIN in every acceptable state.  A
+	// snapshot that a revert dropped out of the chain (an orphan) is no longer a snapshot of the volume - it is
+	// invisible through Chain()/ListDisks after a reload - and nothing is promised about it.
 	first := cands[0]
-	all := append(append([]*ea.Snap(nil), first.Chain...), first.Orphans...)
+	all := append([]*ea.Snap(nil), first.Chain...)
 	for _, s := range all {
 		if !s.Retained() {
 			continue
@@ -274,7 +276,7 @@ func (e *expect) judge(dir string, rc *recovered, mode string, st *ostats) *verd
 		inAll := true
 		for _, m := range cands[1:] {
 			found := false
-			for _, t := range append(append([]*ea.Snap(nil), m.Chain...), m.Orphans...) {
+			for _, t := range m.Chain {
 				if t.Name == s.Name && t.Retained() {
 					found = true
 				}
